@@ -10,6 +10,7 @@ import sys
 from difflib import SequenceMatcher
 from pathlib import Path
 from typing import IO, Collection, Optional
+from http.client import HTTPException
 from urllib.error import URLError
 
 import click
@@ -180,7 +181,16 @@ def download(
             destination = _path_to_license_file(lic, obj.project)
         try:
             put_license_in_file(lic, destination=destination, source=source)
-        except URLError:
+        # Not every failed transfer is a URLError: the peer may hang up, send
+        # less than it promised or something that is no text, and an
+        # identifier may make no valid URL.
+        except (
+            URLError,
+            HTTPException,
+            ConnectionError,
+            TimeoutError,
+            UnicodeDecodeError,
+        ):
             _could_not_download(lic)
             return_code = 1
         except FileExistsError as err:
